@@ -259,6 +259,9 @@ func c4Persisted(ri *retributionInfo) (*retributionInfo, error) {
 	return loaded, nil
 }
 
+// verifDiverged: a schedule step the real objects cannot take.
+type verifDiverged string
+
 func c4Punish(victim, cheater *c4Side, h uint64, withTx bool, noAmt bool, thaw uint32) c4Justice {
 	ln := c4Justice{c4Ev: c4Ev{A: "Justice", P: victim.name, X: int(h)}, Ins: []c4In{}, SL: []c4SL{}, BSL: []c4SL{},
 		Hint: -1, OurIdx: -1, TheirIdx: -1, OurAmtLog: -1, TheirAmtLog: -1}
@@ -744,172 +747,186 @@ func TestVerifC04Justice(t *testing.T) {
 				nonOpener: int64(bob.State().LocalChanCfg.DustLimit)}})
 
 		failed := false
-		for _, e := range evs[1:] {
-			me := sides[e.P]
-			peer := sides[other[e.P]]
-			var err error
-			pop := func() c4Msg {
-				if len(peer.out) == 0 {
-					t.Fatalf("%s: %v: peer queue empty", f, e)
-				}
-				m := peer.out[0]
-				peer.out = peer.out[1:]
-				return m
-			}
-			name := e.A
-			switch e.A {
-			case "Add":
-				var pre [32]byte
-				var expiry uint32
-				key := fmt.Sprintf("%s/%d", e.P, e.X)
-				if lp, ok := lastPre[key]; ok && e.Y == 1 {
-					// equal-hash duplicate: alternately fully identical and with
-					// a different CLTV expiry (shards sent at different heights)
-					pre, expiry = lp, lastExp[key]
-					ndup++
-					if ndup%2 == 1 {
-						expiry += 9
+		// a schedule step that the real objects cannot take ends this
+		// behaviour: the recorded prefix holds the deviating step, TLC judges it
+		func() {
+			defer func() {
+				if r := recover(); r != nil {
+					d, is := r.(verifDiverged)
+					if !is {
+						panic(r)
 					}
-				} else {
-					npre++
-					pre[0], pre[1], pre[2] = byte(npre), byte(npre>>8), 0x5a
-					expiry = uint32(500 + (npre*5)%23)
-				}
-				lastPre[key], lastExp[key] = pre, expiry
-				htlc := &lnwire.UpdateAddHTLC{ID: me.nextID, PaymentHash: sha256.Sum256(pre[:]),
-					Amount: lnwire.MilliSatoshi(e.X), Expiry: expiry}
-				_, err = me.lc.AddHTLC(htlc, nil)
-				if err == nil {
-					me.out = append(me.out, c4Msg{kind: "add", add: htlc})
-					pres[fmt.Sprintf("%s/%d", e.P, htlc.ID)] = pre
-					me.nextID++
-				} else if c4IsConstraintErr(err) {
-					name = "AddRejected"
-				}
-			case "Resolve":
-				id := uint64(e.X)
-				if e.Y == 1 {
-					pre := pres[fmt.Sprintf("%s/%d", other[e.P], id)]
-					err = me.lc.SettleHTLC(pre, id, nil, nil, nil)
-					if err == nil {
-						me.out = append(me.out, c4Msg{kind: "settle", id: id, pre: pre})
-					}
-				} else {
-					err = me.lc.FailHTLC(id, []byte("x"), nil, nil, nil)
-					if err == nil {
-						me.out = append(me.out, c4Msg{kind: "fail", id: id})
-					}
-				}
-			case "Sign":
-				var ns *lnwallet.NewCommitState
-				ns, err = me.lc.SignNextCommitment(ctxb)
-				if err == nil {
-					me.out = append(me.out, c4Msg{kind: "sig", sigs: ns.CommitSigs})
-				}
-			case "RecvAdd":
-				_, err = me.lc.ReceiveHTLC(pop().add)
-			case "RecvRes":
-				m := pop()
-				if m.kind == "settle" {
-					err = me.lc.ReceiveHTLCSettle(m.pre, m.id)
-				} else {
-					err = me.lc.ReceiveFailHTLC(m.id, []byte("x"))
-				}
-			case "RecvSig":
-				err = me.lc.ReceiveNewCommitment(pop().sigs)
-			case "Revoke":
-				var rev *lnwire.RevokeAndAck
-				rev, _, _, err = me.lc.RevokeCurrentCommitment()
-				if err == nil {
-					me.out = append(me.out, c4Msg{kind: "rev", rev: rev})
-					// a new local commitment is on disk: record what we
-					// would broadcast with it
-					if serr := me.snapshot(thaw); serr != nil {
-						t.Fatalf("%s: snapshot after %v: %v", f, e, serr)
-					}
-				}
-			case "RecvRev":
-				_, _, err = me.lc.ReceiveRevocation(pop().rev)
-			case "UpdateFee":
-				err = me.lc.UpdateFee(chainfee.SatPerKWeight(e.X))
-				if err == nil {
-					me.out = append(me.out, c4Msg{kind: "fee", fee: int64(e.X)})
-				}
-			case "RecvFee":
-				err = me.lc.ReceiveUpdateFee(chainfee.SatPerKWeight(pop().fee))
-			case "Disconnect":
-				for _, s := range sides {
-					var nlc *lnwallet.LightningChannel
-					if nlc, err = s.reload(thaw); err != nil {
-						break
-					}
-					s.lc = nlc
-					s.out = nil
-					if s.nextID, err = nlc.NextLocalHtlcIndex(); err != nil {
-						break
-					}
-				}
-			case "StaleTouch":
-				// status update through a stale handle (see channel_exec_test.go): the
-				// model leaves everything unchanged; not exercised by this executor
-			case "SoftDisconnect":
-				// API-level event, never generated for this executor's profiles
-			case "SendReest":
-				var m *lnwire.ChannelReestablish
-				m, err = me.lc.State().ChanSyncMsg()
-				if err == nil {
-					if me.lc.State().ChanType.IsTaproot() {
-						txid := me.lc.State().FundingOutpoint.Hash
-						var nonce lnwire.Musig2Nonce
-						if m.LocalNonces.IsSome() {
-							nonce = m.LocalNonces.UnsafeFromSome().NoncesMap[txid]
-						} else {
-							nonce = m.LocalNonce.UnwrapOrFailV(t)
-						}
-						lnwallet.VerifSetPendingVerificationNonce(me.lc, &musig2.Nonces{PubNonce: nonce})
-					}
-					me.out = append(me.out, c4Msg{kind: "reest", reest: m})
-				}
-			case "RecvReest":
-				var msgs []lnwire.Message
-				msgs, _, _, err = me.lc.ProcessChanSyncMsg(ctxb, pop().reest)
-				for _, x := range msgs {
-					switch mm := x.(type) {
-					case *lnwire.UpdateAddHTLC:
-						me.out = append(me.out, c4Msg{kind: "add", add: mm})
-					case *lnwire.UpdateFulfillHTLC:
-						me.out = append(me.out, c4Msg{kind: "settle", id: mm.ID, pre: mm.PaymentPreimage})
-					case *lnwire.UpdateFailHTLC:
-						me.out = append(me.out, c4Msg{kind: "fail", id: mm.ID})
-					case *lnwire.UpdateFee:
-						me.out = append(me.out, c4Msg{kind: "fee", fee: int64(mm.FeePerKw)})
-					case *lnwire.CommitSig:
-						me.out = append(me.out, c4Msg{kind: "sig", sigs: &lnwallet.CommitSigs{
-							CommitSig: mm.CommitSig, HtlcSigs: mm.HtlcSigs, PartialSig: mm.PartialSig}})
-					case *lnwire.RevokeAndAck:
-						me.out = append(me.out, c4Msg{kind: "rev", rev: mm})
-					default:
-						me.out = append(me.out, c4Msg{kind: fmt.Sprintf("%T", x)})
-					}
-				}
-			default:
-				t.Fatalf("unknown action %q", e.A)
-			}
-			tl := c4Line{c4Ev: e}
-			tl.A = name
-			if err != nil && name != "AddRejected" {
-				tl.Err = err.Error()
-			}
-			out.Emit(tl)
-			nsteps++
-			if err != nil {
-				if name != "AddRejected" {
+					t.Logf("VERIF-DIVERGED %s", string(d))
 					failed = true
-					t.Logf("%s: step %v: %v", filepath.Base(f), e, err)
 				}
-				break
+			}()
+			for _, e := range evs[1:] {
+				me := sides[e.P]
+				peer := sides[other[e.P]]
+				var err error
+				pop := func() c4Msg {
+					if len(peer.out) == 0 {
+						panic(verifDiverged(fmt.Sprintf("%s: %v: peer queue empty", f, e)))
+					}
+					m := peer.out[0]
+					peer.out = peer.out[1:]
+					return m
+				}
+				name := e.A
+				switch e.A {
+				case "Add":
+					var pre [32]byte
+					var expiry uint32
+					key := fmt.Sprintf("%s/%d", e.P, e.X)
+					if lp, ok := lastPre[key]; ok && e.Y == 1 {
+						// equal-hash duplicate: alternately fully identical and with
+						// a different CLTV expiry (shards sent at different heights)
+						pre, expiry = lp, lastExp[key]
+						ndup++
+						if ndup%2 == 1 {
+							expiry += 9
+						}
+					} else {
+						npre++
+						pre[0], pre[1], pre[2] = byte(npre), byte(npre>>8), 0x5a
+						expiry = uint32(500 + (npre*5)%23)
+					}
+					lastPre[key], lastExp[key] = pre, expiry
+					htlc := &lnwire.UpdateAddHTLC{ID: me.nextID, PaymentHash: sha256.Sum256(pre[:]),
+						Amount: lnwire.MilliSatoshi(e.X), Expiry: expiry}
+					_, err = me.lc.AddHTLC(htlc, nil)
+					if err == nil {
+						me.out = append(me.out, c4Msg{kind: "add", add: htlc})
+						pres[fmt.Sprintf("%s/%d", e.P, htlc.ID)] = pre
+						me.nextID++
+					} else if c4IsConstraintErr(err) {
+						name = "AddRejected"
+					}
+				case "Resolve":
+					id := uint64(e.X)
+					if e.Y == 1 {
+						pre := pres[fmt.Sprintf("%s/%d", other[e.P], id)]
+						err = me.lc.SettleHTLC(pre, id, nil, nil, nil)
+						if err == nil {
+							me.out = append(me.out, c4Msg{kind: "settle", id: id, pre: pre})
+						}
+					} else {
+						err = me.lc.FailHTLC(id, []byte("x"), nil, nil, nil)
+						if err == nil {
+							me.out = append(me.out, c4Msg{kind: "fail", id: id})
+						}
+					}
+				case "Sign":
+					var ns *lnwallet.NewCommitState
+					ns, err = me.lc.SignNextCommitment(ctxb)
+					if err == nil {
+						me.out = append(me.out, c4Msg{kind: "sig", sigs: ns.CommitSigs})
+					}
+				case "RecvAdd":
+					_, err = me.lc.ReceiveHTLC(pop().add)
+				case "RecvRes":
+					m := pop()
+					if m.kind == "settle" {
+						err = me.lc.ReceiveHTLCSettle(m.pre, m.id)
+					} else {
+						err = me.lc.ReceiveFailHTLC(m.id, []byte("x"))
+					}
+				case "RecvSig":
+					err = me.lc.ReceiveNewCommitment(pop().sigs)
+				case "Revoke":
+					var rev *lnwire.RevokeAndAck
+					rev, _, _, err = me.lc.RevokeCurrentCommitment()
+					if err == nil {
+						me.out = append(me.out, c4Msg{kind: "rev", rev: rev})
+						// a new local commitment is on disk: record what we
+						// would broadcast with it
+						if serr := me.snapshot(thaw); serr != nil {
+							t.Fatalf("%s: snapshot after %v: %v", f, e, serr)
+						}
+					}
+				case "RecvRev":
+					_, _, err = me.lc.ReceiveRevocation(pop().rev)
+				case "UpdateFee":
+					err = me.lc.UpdateFee(chainfee.SatPerKWeight(e.X))
+					if err == nil {
+						me.out = append(me.out, c4Msg{kind: "fee", fee: int64(e.X)})
+					}
+				case "RecvFee":
+					err = me.lc.ReceiveUpdateFee(chainfee.SatPerKWeight(pop().fee))
+				case "Disconnect":
+					for _, s := range sides {
+						var nlc *lnwallet.LightningChannel
+						if nlc, err = s.reload(thaw); err != nil {
+							break
+						}
+						s.lc = nlc
+						s.out = nil
+						if s.nextID, err = nlc.NextLocalHtlcIndex(); err != nil {
+							break
+						}
+					}
+				case "StaleTouch":
+					// status update through a stale handle (see channel_exec_test.go): the
+					// model leaves everything unchanged; not exercised by this executor
+				case "SoftDisconnect":
+					// API-level event, never generated for this executor's profiles
+				case "SendReest":
+					var m *lnwire.ChannelReestablish
+					m, err = me.lc.State().ChanSyncMsg()
+					if err == nil {
+						if me.lc.State().ChanType.IsTaproot() {
+							txid := me.lc.State().FundingOutpoint.Hash
+							var nonce lnwire.Musig2Nonce
+							if m.LocalNonces.IsSome() {
+								nonce = m.LocalNonces.UnsafeFromSome().NoncesMap[txid]
+							} else {
+								nonce = m.LocalNonce.UnwrapOrFailV(t)
+							}
+							lnwallet.VerifSetPendingVerificationNonce(me.lc, &musig2.Nonces{PubNonce: nonce})
+						}
+						me.out = append(me.out, c4Msg{kind: "reest", reest: m})
+					}
+				case "RecvReest":
+					var msgs []lnwire.Message
+					msgs, _, _, err = me.lc.ProcessChanSyncMsg(ctxb, pop().reest)
+					for _, x := range msgs {
+						switch mm := x.(type) {
+						case *lnwire.UpdateAddHTLC:
+							me.out = append(me.out, c4Msg{kind: "add", add: mm})
+						case *lnwire.UpdateFulfillHTLC:
+							me.out = append(me.out, c4Msg{kind: "settle", id: mm.ID, pre: mm.PaymentPreimage})
+						case *lnwire.UpdateFailHTLC:
+							me.out = append(me.out, c4Msg{kind: "fail", id: mm.ID})
+						case *lnwire.UpdateFee:
+							me.out = append(me.out, c4Msg{kind: "fee", fee: int64(mm.FeePerKw)})
+						case *lnwire.CommitSig:
+							me.out = append(me.out, c4Msg{kind: "sig", sigs: &lnwallet.CommitSigs{
+								CommitSig: mm.CommitSig, HtlcSigs: mm.HtlcSigs, PartialSig: mm.PartialSig}})
+						case *lnwire.RevokeAndAck:
+							me.out = append(me.out, c4Msg{kind: "rev", rev: mm})
+						default:
+							me.out = append(me.out, c4Msg{kind: fmt.Sprintf("%T", x)})
+						}
+					}
+				default:
+					t.Fatalf("unknown action %q", e.A)
+				}
+				tl := c4Line{c4Ev: e}
+				tl.A = name
+				if err != nil && name != "AddRejected" {
+					tl.Err = err.Error()
+				}
+				out.Emit(tl)
+				nsteps++
+				if err != nil {
+					if name != "AddRejected" {
+						failed = true
+						t.Logf("%s: step %v: %v", filepath.Base(f), e, err)
+					}
+					break
+				}
 			}
-		}
+		}()
 		if failed {
 			continue
 		}
